@@ -646,11 +646,11 @@ class Workspace(AbstractContextManager):
             entity.concatenator.remove_children([entity])
             return
 
-        if isinstance(entity, ConcatenatedData):
+        if isinstance(entity, (ConcatenatedData, ConcatenatedPropertyGroup)):
             entity.parent.remove_children([entity])
             return
 
-        if isinstance(entity, (Concatenated, ConcatenatedPropertyGroup)):
+        if isinstance(entity, Concatenated):
             entity.concatenator.remove_entity(entity)
             return
 
